@@ -10,10 +10,13 @@ def scanner_harnesses(tier):
     N = 4 if tier == 'quick' else 6
     for nm in irb.scanner_names():
         n = N
-        if tier == 'thorough' and nm in ('scan_html_block', 'scan_html_line', 'scan_html', 'scan_ref_link_no_attributes', 'scan_ref_link'):
-            n = 5
-        hs.append(dict(name='c01_' + nm, src='irb/scan1.c', defs=dict(FN='ir_' + nm, N=n, ARENA=40), prepare=irb.prepare_scanner,
-                       unwind=60 + 40 * n, timeout=900 if tier == 'quick' else 3000, mem_gb=4, replay_units=['repo:scanners.c'],
+        if nm in ('scan_html_block', 'scan_html_line', 'scan_html', 'scan_ref_link_no_attributes', 'scan_attributes'):
+            n = N - 1
+        d = dict(FN='ir_' + nm, N=n, ARENA=40)
+        if nm == 'scan_alignment_string':
+            d['RESULT_IS_FLAGS'] = 1
+        hs.append(dict(name='c01_' + nm, src='irb/scan1.c', defs=d, prepare=irb.prepare_scanner,
+                       unwind_auto=[8 * n, 12 * n, 20 * n, 32 * n, 50 * n], timeout=900 if tier == 'quick' else 3000, mem_gb=4, replay_units=['repo:scanners.c'],
                        bounds='every NUL-terminated buffer of <= %d bytes (all byte values)' % n,
                        desc='%s (IR of the current scanners.c): reads only inside the buffer incl. NUL, result inside the buffer' % nm))
     return hs
